@@ -1,5 +1,9 @@
 (** Proofs about SM/SMGate.v: what the gate refuses, that nothing is handed to the
-    search core, and the length of the sequences of accepted plain CrossBlocks. *)
+    search core, that no user constraint of an accepted design is ignored (the gate is
+    total on the user constraint classes since /repo commit cac238c; before it
+    [witness_with KExactlyKInARow], [.. KSequential], [.. KLatin] were accepted with the
+    constraint ignored - replayed on the real code, repaired), and the length of the
+    sequences of accepted plain CrossBlocks. *)
 From Coq Require Import List Bool Arith Lia.
 From SP Require Import SM.SMGate.
 Import ListNotations.
@@ -21,7 +25,7 @@ Proof.
   - destruct Hin as [Hx|Hx]; [subst; congruence|]. eapply IH; eassumption.
 Qed.
 
-(** any design with a constraint of one of the five kinds is refused, with the first such kind *)
+(** any design with a constraint of one of the nine refused kinds is refused, with the first such kind *)
 Theorem gate_refuses_unsupported : forall s k,
   sm_is_block s = true -> sm_ncrossings s = 1 ->
   In k (sm_constraints s) -> refused_kind k = true ->
@@ -46,7 +50,7 @@ Qed.
 (** an accepted design contains no constraint of the refused kinds, and nothing reaches the core *)
 Theorem gate_accept_facts : forall s p, gate s = Accept p ->
   sm_ncrossings s = 1 /\ (forall k, In k (sm_constraints s) -> refused_kind k = false) /\
-  p_handed p = [] /\ p_ignored p = filter user_kind (sm_constraints s).
+  p_handed p = [] /\ p_ignored p = filter (fun k => negb (realised_kind k)) (sm_constraints s).
 Proof.
   intros s p H. unfold gate in H.
   destruct (sm_is_block s); cbn in H; [|discriminate].
@@ -62,12 +66,76 @@ Proof.
   exfalso. eapply find_none in Ef; [|eassumption]. congruence.
 Qed.
 
-(** every user constraint of an accepted design is ignored *)
-Theorem gate_accept_ignores : forall s p k, gate s = Accept p ->
-  In k (sm_constraints s) -> user_kind k = true -> In k (p_ignored p) /\ ~ In k (p_handed p).
+(** * Totality of the gate on the constraint classes of constraint.py *)
+Lemma kind_cases : forall k, refused_kind k = true \/ realised_kind k = true \/ k = KSustain \/ k = KOther.
+Proof. destruct k; cbn; auto. Qed.
+
+(** the support test lists exactly the user constraint classes *)
+Lemma user_kind_refused : forall k, user_kind k = refused_kind k.
+Proof. destruct k; reflexivity. Qed.
+
+Lemma user_not_realised : forall k, user_kind k = true -> realised_kind k = false.
+Proof. destruct k; cbn; congruence. Qed.
+
+Lemma ckind_eqb_eq : forall a b, ckind_eqb a b = true -> a = b.
+Proof. destruct a, b; cbn; intro H; try discriminate; reflexivity. Qed.
+
+(** every constraint of an accepted design is realised by the core's own machinery (crossing,
+    consistency, derivations, Reify, MinimumTrials through the weight trick, ContinuousConstraint
+    by the caller), or is the internal Sustain, or of a class unknown to constraint.py: no user
+    constraint is left *)
+Theorem gate_total_kinds : forall s p k, gate s = Accept p -> In k (sm_constraints s) ->
+  user_kind k = false /\ (realised_kind k = true \/ k = KSustain \/ k = KOther).
 Proof.
-  intros s p k H Hin Hu. destruct (gate_accept_facts s p H) as [_ [_ [Hh Hi]]].
-  rewrite Hh, Hi. split; [apply filter_In; split; assumption | intros []].
+  intros s p k H Hin. destruct (gate_accept_facts s p H) as [_ [Hno _]].
+  specialize (Hno k Hin). split; [rewrite user_kind_refused; assumption|].
+  destruct (kind_cases k) as [Hr|Hc]; [congruence|assumption].
+Qed.
+
+Theorem gate_total_ignored : forall s p k, gate s = Accept p -> In k (p_ignored p) -> k = KSustain \/ k = KOther.
+Proof.
+  intros s p k H Hin. destruct (gate_accept_facts s p H) as [_ [_ [_ Hi]]]. rewrite Hi in Hin.
+  apply filter_In in Hin. destruct Hin as [Hin Hnr].
+  destruct (gate_total_kinds s p k H Hin) as [_ [Hr|Hc]]; [rewrite Hr in Hnr; discriminate | assumption].
+Qed.
+
+Lemma ignored_by_gate_spec : forall s k, ignored_by_gate s k = true ->
+  exists p, gate s = Accept p /\ In k (sm_constraints s) /\ realised_kind k = false.
+Proof.
+  intros s k H. unfold ignored_by_gate in H. destruct (gate s) as [r|c|p] eqn:E; try discriminate.
+  exists p. split; [reflexivity|].
+  apply andb_prop in H. destruct H as [H _]. apply andb_prop in H. destruct H as [He Hn].
+  apply existsb_exists in He. destruct He as [k' [Hin Hk]]. apply ckind_eqb_eq in Hk. subst k'.
+  split; [assumption|]. destruct (realised_kind k); [discriminate|reflexivity].
+Qed.
+
+(** a constraint kind is ignored only if it is Sustain or unknown *)
+Theorem ignored_only_sustain_other : forall s k, ignored_by_gate s k = true -> k = KSustain \/ k = KOther.
+Proof.
+  intros s k H. destruct (ignored_by_gate_spec s k H) as [p [Hg [Hin Hn]]].
+  destruct (gate_total_kinds s p k Hg Hin) as [_ [Hr|Hc]]; [congruence|assumption].
+Qed.
+
+(** C29_gate_total: an accepted design has no user constraint; each of its constraints is realised,
+    Sustain or unknown; and without Sustain / unknown classes nothing at all is ignored *)
+Theorem gate_total : forall s p, gate s = Accept p ->
+  (forall k, In k (sm_constraints s) -> user_kind k = false /\ (realised_kind k = true \/ k = KSustain \/ k = KOther)) /\
+  (forall k, In k (p_ignored p) -> k = KSustain \/ k = KOther) /\
+  (~ In KSustain (sm_constraints s) -> ~ In KOther (sm_constraints s) ->
+   p_ignored p = [] /\ forall k, ignored_by_gate s k = false).
+Proof.
+  intros s p H. split; [intros k Hin; exact (gate_total_kinds s p k H Hin)|].
+  split; [intros k Hin; exact (gate_total_ignored s p k H Hin)|].
+  intros HnS HnO. assert (Hsub : forall k, In k (p_ignored p) -> In k (sm_constraints s)).
+  { intros k Hin. destruct (gate_accept_facts s p H) as [_ [_ [_ Hi]]]. rewrite Hi in Hin.
+    apply filter_In in Hin. apply Hin. }
+  split.
+  - assert (Hall : forall k, ~ In k (p_ignored p)).
+    { intros k Hin. destruct (gate_total_ignored s p k H Hin) as [Hk|Hk]; subst k; [apply HnS | apply HnO]; apply Hsub; assumption. }
+    destruct (p_ignored p) as [|k l]; [reflexivity|]. exfalso. apply (Hall k). left; reflexivity.
+  - intros k. destruct (ignored_by_gate s k) eqn:E; [|reflexivity]. exfalso.
+    destruct (ignored_by_gate_spec s k E) as [p' [_ [Hin _]]].
+    destruct (ignored_only_sustain_other s k E) as [Hk|Hk]; subst k; [apply HnS | apply HnO]; assumption.
 Qed.
 
 (** * Length *)
@@ -225,28 +293,24 @@ Proof.
     rewrite Hcw1. fold (base_size s). fold S. lia.
 Qed.
 
-(** * Witnesses: what the gate lets through although the core does not enforce it *)
+(** * Witnesses *)
 Definition plain_factor (n : nat) : sfactor :=
   {| sf_derived := false; sf_window := WWithin; sf_args := []; sf_weights := repeat 1 n |}.
 
-(** CrossBlock([f, g], [f, g], [c]) with f, g of two levels and one user constraint of kind k *)
+(** CrossBlock([f, g], [f, g], [c]) with f, g of two levels and one user constraint of kind k.
+    Until /repo commit cac238c the gate accepted [witness_with KExactlyKInARow],
+    [witness_with KSequential] and [witness_with KLatin] (theorems gate_refuted*, replayed on the
+    real code: sequences violating the constraint were returned); they are refused now. *)
 Definition witness_with (k : ckind) : summary :=
   {| sm_is_block := true; sm_ncrossings := 1; sm_constraints := [KCross; KConsistency; k];
      sm_crossing_weight := 1; sm_trials := 4; sm_design := [plain_factor 2; plain_factor 2]; sm_crossing := [0; 1] |}.
 
-Theorem gate_refuted : exists s p,
-  gate s = Accept p /\ In KExactlyKInARow (sm_constraints s) /\ user_kind KExactlyKInARow = true /\
-  ~ In KExactlyKInARow (p_handed p) /\ p_length p = sm_trials s /\ ignored_by_gate s KExactlyKInARow = true.
-Proof.
-  exists (witness_with KExactlyKInARow). eexists. split; [vm_compute; reflexivity|].
-  split; [cbn; auto|]. split; [reflexivity|]. split; [intros []|]. split; [reflexivity|]. vm_compute. reflexivity.
-Qed.
+Theorem witness_with_user_refused : forall k, user_kind k = true -> gate (witness_with k) = Refuse (RConstraint k).
+Proof. destruct k; cbn; intro H; try discriminate; reflexivity. Qed.
 
-Theorem gate_refuted_sequential : exists s, ignored_by_gate s KSequential = true.
-Proof. exists (witness_with KSequential). vm_compute. reflexivity. Qed.
-
-Theorem gate_refuted_latin : exists s, ignored_by_gate s KLatin = true.
-Proof. exists (witness_with KLatin). vm_compute. reflexivity. Qed.
+Theorem witness_with_realised_accepted : forall k, realised_kind k = true ->
+  exists p, gate (witness_with k) = Accept p /\ p_ignored p = [] /\ p_length p = 4.
+Proof. destruct k; cbn; intro H; try discriminate; eexists; (split; [vm_compute; reflexivity|split; reflexivity]). Qed.
 
 (** the refused kinds are never ignored *)
 Theorem refused_never_ignored : forall s k, refused_kind k = true -> ignored_by_gate s k = false.
@@ -257,6 +321,22 @@ Proof.
   apply existsb_exists in Ee. destruct Ee as [k' [Hin Hk]].
   assert (k = k') by (destruct k, k'; cbn in Hk; try discriminate; reflexivity). subst k'.
   rewrite (Hno k Hin) in Hr. discriminate.
+Qed.
+
+(** the exception of [gate_total] is inhabited: Nest(CrossBlock([f],[f],[]), CrossBlock([g],[],[MinimumTrials(3)]))
+    has ONE crossing (the inner block has none), [block.constraints] = Cross, Consistency, MinimumTrials,
+    Sustain (crossing_sustain_counts = [3]), trials_per_sample() = 6, crossing_weight() = 1: the gate lets it
+    through, no Sustain is handed to the core, and the columns have 2 entries (replayed on the real code) *)
+Definition witness_sustain : summary :=
+  {| sm_is_block := true; sm_ncrossings := 1; sm_constraints := [KCross; KConsistency; KMinimumTrials; KSustain];
+     sm_crossing_weight := 1; sm_trials := 6; sm_design := [plain_factor 2; plain_factor 3]; sm_crossing := [0] |}.
+
+Theorem gate_sustain_refuted : exists s p,
+  gate s = Accept p /\ In KSustain (sm_constraints s) /\ ~ In KSustain (p_handed p) /\ In KSustain (p_ignored p) /\
+  ignored_by_gate s KSustain = true /\ p_length p = 2 /\ sm_trials s = 6.
+Proof.
+  exists witness_sustain. eexists. split; [vm_compute; reflexivity|].
+  split; [cbn; auto|]. split; [intros []|]. split; [cbn; auto|]. split; [vm_compute; reflexivity|]. split; reflexivity.
 Qed.
 
 (** Repeat(CrossBlock([f],[f]), [MinimumTrials(4)]): trials 4, crossing weight 1 (RepeatMode.REPEAT
